@@ -186,9 +186,22 @@ def main : IO UInt32 := do
   -- CSRF cookie names
   let states : List Str := (List.range 12).map (fun n => rep 's' n) ++ [("abcdefgh:/x".toList), ("abcdefg:/".toList), ("aaaaaaa:/".toList)]
   bad := bad + (← firstDiff "GenerateCookieName" ([true, false].flatMap fun pr => states.map fun st => (pr, st)) (fun p => toString p.1 ++ " " ++ q p.2)
-    (fun p => showM q (Gen.Tr.GenerateCookieName E0 ⟨['c'], p.1⟩ p.2))
+    (fun p => showM q (Gen.Tr.GenerateCookieName E0 { Name := ['c'], CSRFPerRequest := p.1 } p.2))
     (fun p => let sub := stateSubstring { csrfPerRequest := p.1 } p.2
               q (if sub = [] then ['c'] ++ "_csrf".toList else ['c'] ++ '_' :: sub ++ "_csrf".toList)))
+  -- the cookie constructor: hosts × validated domain lists (an empty entry only last) × lifetimes × SameSite
+  let mcLists : List (List Str) := ([[], ["a.b"], ["x.a.b", "a.b"], ["x.a.b", "a.b", ""], ["cc.dd", "a.b"], [""]] : List (List String)).map (·.map String.toList)
+  let mcExps : List Int := [0, 1, 999999999, 1000000000, 1500000000, 3600000000000, -1, -3600000000000]
+  let sss : List Str := (["", "lax", "strict", "none"] : List String).map String.toList
+  let mcCases := cdHosts.flatMap fun h => mcLists.flatMap fun d => mcExps.flatMap fun x => sss.map fun ss => (h, d, x, ss)
+  let showC : Go.HttpCookie → String := fun c => s!"{q c.Name}={q c.Value} Path={q c.Path} Domain={q c.Domain} HttpOnly={c.HttpOnly} Secure={c.Secure} SameSite={c.SameSite} MaxAge={c.MaxAge}"
+  bad := bad + (← firstDiff "MakeCookieFromOptions" mcCases (fun p => s!"host={q p.1} domains={qs p.2.1} expiration_ns={p.2.2.1} samesite={q p.2.2.2}")
+    (fun p => showM showC (Gen.Tr.MakeCookieFromOptions E0 { header := fun _ => [], host := p.1, urlScheme := [], requestURI := [], scope := none } ['n'] ['v']
+      { Name := ['n'], CSRFPerRequest := false, Domains := p.2.1, Path := ['/'], HTTPOnly := true, Secure := true, SameSite := p.2.2.2 } p.2.2.1))
+    (fun p => let c := Ck.makeCookie { path := ['/'], domains := p.2.1, secure := true, httpOnly := true, sameSite := p.2.2.2 } p.1 ['n'] ['v'] p.2.2.1
+              showC { Name := c.name, Value := c.value, Path := c.path, Domain := c.domain, HttpOnly := c.httpOnly, Secure := c.secure,
+                      SameSite := (if c.sameSite = "lax".toList then 2 else if c.sameSite = "strict".toList then 3 else if c.sameSite = "none".toList then 4 else 0),
+                      MaxAge := (match c.maxAge with | none => 0 | some m => m) }))
   IO.println s!"trsearch: {bad} function(s) with a disagreement"
   return (if bad == 0 then 0 else 1)
 
